@@ -2,7 +2,7 @@
 // Workflow variables are handed to the REAL script engine and read back, script literals are returned: for every value of a small
 // family (null, booleans, strings incl. non-ASCII, integers around 2^31, 2^32 and 2^53, floats, arrays and objects with null
 // members, nesting) the value seen inside the script (`v === <literal>`), the value returned (`v`) and the value stored by the
-// script ($set) must equal the original.
+// script ($set) or returned inside an object (the route of a code act's result) must equal the original.
 #[tokio::test]
 async fn verif_replay_value_roundtrip() {
     let engine = Engine::new().start();
@@ -14,6 +14,8 @@ async fn verif_replay_value_roundtrip() {
         ("null".into(), json!(null)), ("true".into(), json!(true)), ("false".into(), json!(false)),
         ("\"\"".into(), json!("")), ("\"Zoë – Münster\"".into(), json!("Zoë – Münster")),
         ("1.5".into(), json!(1.5)), ("-0.25".into(), json!(-0.25)), ("1e21".into(), json!(1e21)),
+        // finite floats beyond the 64-bit integers, whole-valued and not
+        ("1e19".into(), json!(1e19)), ("-1.5e300".into(), json!(-1.5e300)), ("9223372036854775808".into(), json!(9223372036854775808.0_f64)), ("18446744073709551616".into(), json!(18446744073709551616.0_f64)), ("-9.3e18".into(), json!(-9.3e18)), ("1.7976931348623157e308".into(), json!(1.7976931348623157e308)),
         ("[1,null,\"a\"]".into(), json!([1, null, "a"])), ("({a:1,b:null})".into(), json!({"a": 1, "b": null})),
         ("({c:{d:null,e:[null,{f:null}]}})".into(), json!({"c": {"d": null, "e": [null, {"f": null}]}})),
     ];
@@ -45,6 +47,18 @@ async fn verif_replay_value_roundtrip() {
             match env.eval::<serde_json::Value>(&format!("({lit})")) {
                 Ok(back) if back == *v || (back.as_f64().is_some() && back.as_f64() == v.as_f64()) => {}
                 other => bad.push(format!("REPLAY-FAIL script value `{lit}` is returned as {other:?}")),
+            }
+            // 4. an object returned by a script (what an `acts.transform.code` act does with its result: Vars::from(map)), the value at the top level and nested
+            match env.eval::<serde_json::Value>(&format!("({{ r: {lit}, n: {{ l: [{lit}] }} }})")) {
+                Ok(serde_json::Value::Object(map)) => {
+                    let vars = Vars::from(map);
+                    let same = |g: Option<&serde_json::Value>| g == Some(v) || (g.and_then(|g| g.as_f64()).is_some() && g.and_then(|g| g.as_f64()) == v.as_f64());
+                    let top = vars.get::<serde_json::Value>("r");
+                    let nested = vars.get::<serde_json::Value>("n").and_then(|n| n.get("l").and_then(|l| l.get(0)).cloned());
+                    if !same(top.as_ref()) { bad.push(format!("REPLAY-FAIL script value `{lit}` returned inside an object is stored as {top:?}")); }
+                    if !same(nested.as_ref()) { bad.push(format!("REPLAY-FAIL script value `{lit}` returned nested inside an object is stored as {nested:?}")); }
+                }
+                other => bad.push(format!("REPLAY-FAIL an object holding `{lit}` is returned as {other:?}")),
             }
             let _ = env.eval::<()>(&format!("$set(\"saved\", {lit});"));
             let got = proc.data().get::<serde_json::Value>("saved");
